@@ -87,6 +87,13 @@ Skel(t, m, a) ==
                       <<SizeAt(t, m, a), sh, [k \in 1..NItems(sh) |-> Skel(t.it, m, ItemAddr(t, m, a, IdxOf(k, sh)))]>>
     [] OTHER -> 0
 
+RECURSIVE SkelNoStr(_, _, _)       \* the skeleton with string boxes ignored
+SkelNoStr(t, m, a) ==
+  CASE t.k = "struct" -> <<SizeAt(t, m, a), [i \in 1..Len(t.f) |-> SkelNoStr(t.f[i], m, FieldAddr(t, i, m, a))]>>
+    [] t.k = "arr" -> LET sh == Shape(t, m, a) IN
+                      <<SizeAt(t, m, a), sh, [k \in 1..NItems(sh) |-> SkelNoStr(t.it, m, ItemAddr(t, m, a, IdxOf(k, sh)))]>>
+    [] OTHER -> 0
+
 (* type of the element a local path (no dereference) denotes *)
 RECURSIVE ElemType(_, _)
 ElemType(t, lp) == IF lp = <<>> THEN t
